@@ -357,6 +357,7 @@ func c31GenTree(r *vu.RNG) (tree string, numbers []uint64, mainLen uint64) {
 		L = uint64(r.Range(1, 300))
 	}
 	numbers = []uint64{0}
+	children := map[uint64]int{}
 	var segs []string
 	flagsOf := func() uint64 {
 		fl := uint64(0)
@@ -379,6 +380,7 @@ func c31GenTree(r *vu.RNG) (tree string, numbers []uint64, mainLen uint64) {
 			segs = append(segs, fmt.Sprintf("%x.%x.%x", last, part, flagsOf()))
 			for i := uint64(0); i < part; i++ {
 				id := uint64(len(numbers))
+				children[last]++
 				numbers = append(numbers, numbers[last]+1)
 				last = id
 			}
@@ -429,7 +431,13 @@ func c31GenTree(r *vu.RNG) (tree string, numbers []uint64, mainLen uint64) {
 		return "-", numbers, mainLen
 	}
 	tree = strings.Join(segs, ";")
-	if r.Chance(1, 4) {
+	wide := false // a block with three or more children: pruning them is property C15's subject
+	for _, c := range children {
+		if c >= 3 {
+			wide = true
+		}
+	}
+	if r.Chance(1, 4) && !wide {
 		// finalise a block: mostly on the main chain, sometimes anywhere (a fork)
 		f := uint64(r.Intn(len(numbers)-1) + 1)
 		if r.Chance(2, 3) && mainLen > 0 {
